@@ -39,7 +39,7 @@ def gen_cases(tier, seed, gen, effort):
     strs += curated
     for _ in range((200 if not thorough else 3000) * effort):
         strs.append("".join(rnd.choice(ALPHA) for _ in range(rnd.randint(3, 6))))
-    others = [0, 1, -5, 3.5, 2.0, True, False, None, 10 ** 20]
+    others = [0, 1, -5, 3.5, 2.0, True, False, None, 10 ** 20, 2 ** 53 + 1, -(2 ** 63) - 1, 2.0 ** 53, 1e22]
     cases = []
 
     def add(chain, val, field="f"):
@@ -127,7 +127,8 @@ def plain(v):
     if isinstance(v, (int, float)):
         f = float(v)
         try:
-            r = str(int(v)) if int(v) == f else str(f)
+            # an integral number is its exact integer (never the rounding of its float), anything else the float
+            r = str(v) if isinstance(v, int) else (str(int(v)) if f.is_integer() else str(f))
         except (OverflowError, ValueError):
             r = str(v)
         return {"num": cps(r)}
